@@ -76,6 +76,9 @@ type BlockPipeline struct {
 
 	// State
 	sequenceCounter atomic.Uint64
+	// inFlight counts blocks accepted by Submit that have not yet left the
+	// apply stage (applied, failed or skipped)
+	inFlight atomic.Int64
 	ctx             context.Context
 	cancel          context.CancelFunc
 	started         atomic.Bool
@@ -191,6 +194,7 @@ func (p *BlockPipeline) Start(ctx context.Context) error {
 		bufSize, // Deprecated: pendingQueueSize is no longer used (kept for API compatibility)
 	)
 	p.applyRunner.SetMetrics(p.metrics)
+	p.applyRunner.SetItemDoneFunc(p.itemDone)
 
 	// Start all stages
 	// Note: p.ctx is derived from the passed ctx via context.WithCancel above
@@ -245,14 +249,18 @@ func (p *BlockPipeline) Submit(ctx context.Context, blockType uint, rawCbor []by
 
 	item := NewBlockItem(blockType, rawCbor, tip, p.sequenceCounter.Load())
 
+	// Count the item before it becomes visible to the workers
+	p.inFlight.Add(1)
 	select {
 	case p.submitChan <- item:
 		p.sequenceCounter.Add(1)
 		p.metrics.RecordSubmit()
 		return nil
 	case <-ctx.Done():
+		p.inFlight.Add(-1)
 		return ctx.Err()
 	case <-p.ctx.Done():
+		p.inFlight.Add(-1)
 		return ErrPipelineStopped
 	}
 }
@@ -327,19 +335,24 @@ func (p *BlockPipeline) Stats() PipelineStats {
 	return p.metrics.Stats()
 }
 
-// PendingCount returns the approximate number of items still being processed.
-// This includes items in inter-stage channels and items buffered in the apply stage.
+// itemDone records that an item has left the apply stage.
+func (p *BlockPipeline) itemDone(_ *BlockItem) {
+	p.inFlight.Add(-1)
+}
+
+// PendingCount returns the number of submitted items that have not finished
+// processing yet: items queued between stages, items held by decode or
+// validate workers, and items buffered or being applied in the apply stage.
 // Useful for coordinating with rollback operations.
 func (p *BlockPipeline) PendingCount() int {
 	if !p.started.Load() {
 		return 0
 	}
-	channelDepth := len(p.submitChan) + len(p.decodedChan) + len(p.validatedChan)
-	applyPending := 0
-	if p.applyStage != nil {
-		applyPending = p.applyStage.PendingCount()
+	n := p.inFlight.Load()
+	if n < 0 {
+		return 0
 	}
-	return channelDepth + applyPending
+	return int(n)
 }
 
 // WaitForDrain blocks until all currently submitted items have been processed
